@@ -77,3 +77,8 @@ var _ = pr.AutoF
 //@   nopanic
 //@   requires b != nil && b.MarginTop != nil
 //@   ensures result == b.PositionY + pr.VV(b.MarginTop)
+
+//@ func (BoxType).IsInstance
+//@   props C17 C16
+//@   nopanic
+//@   pure
